@@ -135,7 +135,17 @@ def _parts(ctx, expr, fi, facts, depth=0):
         for m in _re.finditer(r'\{[^{}]*\}', tpl):
             if m.start() > pos:
                 out.append(('lit', tpl[pos:m.start()]))
-            out.append(('var', m.group(0)))
+            fld = m.group(0)[1:-1]
+            kw = {k.arg: k.value for k in expr.keywords}
+            auto = sum(1 for x in out if x[0] == 'var')
+            if fld == '' and auto < len(expr.args):
+                out.append(('var', u(expr.args[auto])))
+            elif fld.isdigit() and int(fld) < len(expr.args):
+                out.append(('var', u(expr.args[int(fld)])))
+            elif fld in kw:
+                out.append(('var', u(kw[fld])))
+            else:
+                out.append(('var', m.group(0)))
             pos = m.end()
         if pos < len(tpl):
             out.append(('lit', tpl[pos:]))
